@@ -26,7 +26,11 @@ PROP = dict(
          "value, error kind and message must agree; (3) every int operator (+ - * / % ^ < <= > >= ==, unary -) on the c15 boundary "
          "grid (quick: 16 trouble pairs + 20 seeded pairs; thorough: each of the 49 grid values with 8 seeded partners) and every float operator on a 23-value boundary set "
          "(±0, subnormals, 2^53±1, ±MAX, ±inf, NaN) in the forms var/var, lit/lit, var/lit, lit/var, compound assignment with literal "
-         "and with variable, each with the optimizer on and off, all compared with the var/var optimizer-off run; "
+         "and with variable, each with the optimizer on and off, all compared with the var/var optimizer-off run; (4) chains `v op A op B [op C]` of literal operands after a variable "
+         "(adjacent *Imm instructions; reassociation changes float rounding and which int operation overflows): every pair of + - * / (% for ints) "
+         "on 12 int and 12 float trouble triples (MAX±1, MIN, 2^53 + 1.0 + 1.0, 1.0 + 6e-17 + 6e-17, MAX + MAX - MAX, ±0, subnormals) plus seeded "
+         "triples, as expression, call argument, function body and compound assignment `x op= A op B`, literal vs variable forms with the optimizer "
+         "on and off, and one bundle program per triple in the exact optimize tie and the on/off oracle; "
          "distinct = distinct request; non-trivial = the optimized assembly differs from the input",
     nontrivial=lambda req, imp: imp != " ".join(w for w in req.split(" #")[0].split()[2:] if w[:2] in ("I:", "L:")),
     trusted_base=COMMON_TB + [
